@@ -81,6 +81,12 @@ def optimize : Sx → Sx
       | _ => match orFold args with
         | some b => .bool b
         | Option.none => .list w (.op o :: args)
+    | .CASE =>
+      -- the key of a clause is data (compared as it stands, never evaluated): only the key form and the consequents are code
+      if !w then .list w (.op o :: args) else
+      match args with
+      | [] => .list true [.op .CASE]
+      | kf :: clauses => .list true (.op .CASE :: optimize kf :: optClauses clauses)
     | _ => if !w then .list w (.op o :: args) else .list true (.op o :: optList args)
   | .list w (h :: args) =>
     -- head is not an operator: generic branch maps over *all* elements (the head too)
@@ -89,6 +95,11 @@ def optimize : Sx → Sx
 def optList : List Sx → List Sx
   | [] => []
   | e :: r => optimize e :: optList r
+/-- the clauses of a `case`: the key stays as written, the consequents are optimised -/
+def optClauses : List Sx → List Sx
+  | [] => []
+  | .list true (k :: body) :: r => .list true (k :: optList body) :: optClauses r
+  | c :: r => c :: optClauses r
 end
 
 /-! ## resolve -/
